@@ -402,3 +402,88 @@ func VerifC04DependsOn() {
 	vrtAssert("deps-required-default", get("a", "required") == any(true) && get("b", "required") == any(true) && get("d", "required") == any(true))
 	vrtAssert("deps-required-refined", get("c", "required") == any(false))
 }
+
+// VerifC04KeyedSpellings: the same key written in different spellings on either side (short, long, long with the
+// default spelled out) is still the same key: one entry, the later file's.
+func VerifC04KeyedSpellings() {
+	which := vrtChoice("attr", 5)
+	sb := vrtChoice("baseSpelling", 3)
+	so := vrtChoice("overSpelling", 3)
+	v := c04Val("v")
+	attr := []string{"volumes", "devices", "secrets", "configs", "ports"}[which]
+	entry := func(sp int, side string) any {
+		switch which {
+		case 0:
+			src := "v" + side
+			switch sp {
+			case 0:
+				return src + ":/t" + v
+			case 1:
+				return map[string]any{"type": "volume", "source": src, "target": "/t" + v}
+			}
+			return map[string]any{"type": "volume", "source": src, "target": "/t" + v, "read_only": false, "volume": map[string]any{}}
+		case 1:
+			src := "/dev/" + side
+			switch sp {
+			case 0:
+				return src + ":/t" + v
+			case 1:
+				return src + ":/t" + v + ":rwm"
+			}
+			return map[string]any{"source": src, "target": "/t" + v, "permissions": "rwm"}
+		case 2, 3:
+			def := "/run/secrets/s" + v
+			if which == 3 {
+				def = "/s" + v
+			}
+			switch sp {
+			case 0:
+				return "s" + v
+			case 1:
+				return map[string]any{"source": "s" + v}
+			}
+			return map[string]any{"source": "s" + v, "target": def, "mode": 288}
+		}
+		switch sp {
+		case 0:
+			return "8080:80"
+		case 1:
+			return map[string]any{"target": 80, "published": "8080"}
+		}
+		return map[string]any{"target": 80, "published": "8080", "protocol": "tcp", "mode": "ingress"}
+	}
+	keep := []any{"vk:/keep", "/dev/k:/keep", "sk", "sk", "9090:90"}[which]
+	base := c04Doc(attr, []any{entry(sb, "b"), keep})
+	over := c04Over(attr, []any{entry(so, "o")})
+	for _, d := range []map[string]any{base, over} {
+		switch which {
+		case 0:
+			d["volumes"] = map[string]any{"vb": nil, "vo": nil, "vk": nil}
+		case 2:
+			d["secrets"] = map[string]any{"s" + v: map[string]any{"file": "f"}, "sk": map[string]any{"file": "f"}}
+		case 3:
+			d["configs"] = map[string]any{"s" + v: map[string]any{"file": "f"}, "sk": map[string]any{"file": "f"}}
+		}
+	}
+	m, err := tcLoad(nil, nil, base, over)
+	vrtObserve("err", err != nil)
+	vrtAssert("loads#"+attr, err == nil)
+	if err != nil {
+		vrtObserve("msg", err.Error())
+		return
+	}
+	l, _ := tcSvc(m, "s")[attr].([]any)
+	vrtObserve("list", l)
+	vrtAssert("one-entry-per-key-whatever-the-spelling#"+attr, len(l) == 2)
+	// the surviving entry is the later file's
+	for _, e := range l {
+		mm, _ := e.(map[string]any)
+		src, _ := mm["source"].(string)
+		switch which {
+		case 0:
+			vrtAssert("later-file-wins#volumes", src == "vo" || src == "vk")
+		case 1:
+			vrtAssert("later-file-wins#devices", src == "/dev/o" || src == "/dev/k")
+		}
+	}
+}
